@@ -313,6 +313,89 @@ def _kex_gate_uses(repo):
     return n
 
 
+def _is_lock_call(n, what):
+    return (isinstance(n, ast.Expr) and isinstance(n.value, ast.Call)
+            and ast.unparse(n.value.func) == "self.lock." + what)
+
+
+def _has_release(stmts):
+    return any(isinstance(c, ast.Call) and ast.unparse(c.func) == "self.lock.release"
+               for st in stmts for c in ast.walk(st))
+
+
+def _regions(f):
+    """Statement lists executed while `self.lock` is held inside function f (fail-closed on other shapes)."""
+    regions, matched = [], set()
+
+    def visit(body):
+        for i, st in enumerate(body):
+            if _is_lock_call(st, "acquire") and id(st.value) not in matched:
+                nxt = body[i + 1] if i + 1 < len(body) else None
+                if isinstance(nxt, ast.Try) and _has_release(nxt.finalbody):
+                    regions.append(nxt.body + [h for hd in nxt.handlers for h in hd.body] + nxt.orelse)
+                    matched.add(id(st.value))
+                else:
+                    raise RuntimeError("%s line %d: self.lock.acquire() not followed by try/finally release" % (f.name, st.lineno))
+            if isinstance(st, ast.Try) and st.body and _is_lock_call(st.body[0], "acquire") and _has_release(st.finalbody):
+                regions.append(st.body[1:] + [h for hd in st.handlers for h in hd.body] + st.orelse)
+                matched.add(id(st.body[0].value))
+            if isinstance(st, ast.With) and any(ast.unparse(it.context_expr) == "self.lock" for it in st.items):
+                regions.append(st.body)
+            for fld in ("body", "orelse", "finalbody"):
+                sub = getattr(st, fld, None)
+                if isinstance(sub, list) and sub and isinstance(sub[0], ast.stmt):
+                    visit(sub)
+            for hd in getattr(st, "handlers", []) or []:
+                visit(hd.body)
+
+    visit(f.body)
+    for c in ast.walk(f):
+        if isinstance(c, ast.Call) and ast.unparse(c.func) == "self.lock.acquire" and id(c) not in matched:
+            raise RuntimeError("%s line %d: unrecognised use of self.lock.acquire()" % (f.name, c.lineno))
+    return regions
+
+
+def _takes_lock(f):
+    return any(isinstance(c, ast.Call) and ast.unparse(c.func) == "self.lock.acquire" for c in ast.walk(f)) or \
+        any(isinstance(w, ast.With) and any(ast.unparse(it.context_expr) == "self.lock" for it in w.items)
+            for w in ast.walk(f))
+
+
+# calls inside critical sections of user-facing functions that the handler walk never meets
+REGION_OK = re.compile(r"^(self\.(_pipe|in_buffer|in_stderr_buffer|out_buffer_cv|server_accept_cv|server_accepts|"
+                       r"_channels|channel_events|channels_seen|subsystem_table|event|status_event|logger|"
+                       r"_tcp_handler|saved_exception|server_key_dict)\b.*|pipe\.\w+|p[12]\.\w+|time\.\w+|"
+                       r"threading\.\w+|chan\.\w+|event\.\w+|\w+)$")
+
+
+def _locked_sends(w):
+    """[(Class.function, kind)] for every send primitive reachable while `self.lock` of that class is held."""
+    out = []
+    for (cls, name), f in sorted(w.index.items()):
+        regs = _regions(f)
+        if not regs:
+            continue
+        kinds = w.local_kinds(cls, f)
+        for reg in regs:
+            for st in reg:
+                for n in ast.walk(st):
+                    if not isinstance(n, ast.Call):
+                        continue
+                    try:
+                        r = w.classify(cls, f, n, kinds)
+                    except RuntimeError:
+                        if REGION_OK.match(ast.unparse(n.func)):
+                            continue
+                        raise
+                    if r[0] == "send":
+                        out.append(("%s.%s" % (cls, name), r[1]))
+                    elif r[0] == "edge":
+                        sends, _, _ = w.reach(*r[1])
+                        for k in sorted(sends):
+                            out.append(("%s.%s" % (cls, name), k))
+    return sorted(set(out))
+
+
 def tables(repo):
     """-> dict used by generate() and by the harness (kept importable)."""
     import paramiko
@@ -348,11 +431,14 @@ def tables(repo):
             if not isinstance(getattr(common, c[1:], None), int):
                 raise RuntimeError("%s is not a message number" % c)
         rows.append({"ptype": p, "cls": cls, "name": name, "disc": _discipline(sends),
+                     "lock": any(_takes_lock(w.index[k]) for k in seen),
                      "both": sorted(sends), "types": tnums, "reached": sorted("%s.%s" % k for k in seen)})
     ks, kt, kseen = w.reach("Transport", "set_keepalive")
     keep = {"disc": _discipline(ks), "types": sorted({getattr(common, c[1:]) for c in kt})}
     idx = w.index
+    locked = _locked_sends(w)
     facts = {
+        "locked_sends": locked,
         "gate_waits": _gate_shape(idx[("Transport", "_send_user_message")]),
         "kexinit_clears_first": _clears_first(idx[("Transport", "_send_kex_init")], ["self._send_message"]),
         "negotiate_clears_first": _clears_first(idx[("Transport", "_negotiate_keys")],
@@ -385,6 +471,12 @@ def generate(repo):
     out.append(";\n".join("  (%d, (%s, [%s])) (* %s.%s *)" % (r["ptype"], r["disc"], "; ".join(map(str, r["types"])),
                                                               r["cls"], r["name"]) for r in t["rows"]))
     out.append("].")
+    out.append("(* handlers that take Channel.lock / Transport.lock (self.lock of their class) somewhere on their path *)")
+    out.append("Definition handler_locks : list (Z * bool) := [%s]." % "; ".join(
+        "(%d, %s)" % (r["ptype"], _b(r["lock"])) for r in t["rows"]))
+    out.append("(* sends reachable while self.lock is held (user threads parking at the gate with the lock): %s *)"
+               % (", ".join("%s:%s" % x for x in t["facts"]["locked_sends"]) or "none"))
+    out.append("Definition locked_send_count : Z := %d." % len(t["facts"]["locked_sends"]))
     out.append("(* keepalive tick on the transport thread: set_keepalive -> global_request(wait=False) *)")
     out.append("Definition keepalive_disc : disc := %s." % t["keepalive"]["disc"])
     out.append("Definition keepalive_types : list Z := [%s]." % "; ".join(map(str, t["keepalive"]["types"])))
